@@ -97,6 +97,18 @@ def layouts(quick, rng):
         out.append((f"ds.Select(lambda x: x.a + {i}).SelectMany(\n    lambda x: x.jets\n)",
                     [("Select", f"lambda x: x.a + {i}"), ("SelectMany", "lambda x: x.jets")], True,
                     "first-token-on-line:methods-differ"))
+        # the method name ends a line, its bracket opens the next; an equal-looking lambda sits on
+        # the line the scan backs up to (repaired by 7e3b1db: used to record that earlier lambda)
+        out.append((f"(ds\n.Select\n(lambda x: x.a + {i}).Select\n(lambda\n x: x.name == 'n')\n)",
+                    [("Select", f"lambda x: x.a + {i}"), ("Select", "lambda x: x.name == 'n'")], False,
+                    "name-then-newline:same-args"))
+        out.append((f"(ds\n  .SelectMany(lambda e: e  # lambda z: z.q, (\n        .a).Select(lambda e: (e.a, e.b + {i})).Select  # ) ]\n"
+                    f"    (lambda e: e  # lambda z: z.q, (\n        .jets)\n)",
+                    [("SelectMany", "lambda e: e.a"), ("Select", f"lambda e: (e.a, e.b + {i})"),
+                     ("Select", "lambda e: e.jets")], False, "name-then-newline:comments"))
+        out.append((f"(ds.Where(lambda e: e.pt > {i}).Where\n(lambda e: e.pt > 5)\n)",
+                    [("Where", f"lambda e: e.pt > {i}"), ("Where", "lambda e: e.pt > 5")], False,
+                    "name-then-newline:where"))
     return out
 
 
